@@ -118,6 +118,16 @@ Theorem iterator_never_out_of_fuel : forall r descs exs, exists outs, iter_run r
 Proof. intros r descs exs. apply iter_run_total. apply new_iter_wf. Qed.
 Print Assumptions iterator_never_out_of_fuel.
 
+(* The model of CreateVP has no out-of-fuel escape: the selection loop (one Next call per candidate solution) ends
+   within its fuel for every definition and credential list: each Next call strictly lowers 2^|descs| - state. *)
+Theorem create_vp_never_out_of_fuel : forall v p creds, create_vp v p creds <> CFuel.
+Proof.
+  intros v p creds. unfold create_vp. pose proof (holder_select_no_fuel v p creds) as H.
+  destruct (holder_select v p creds); try discriminate; [|congruence].
+  destruct (merge_all (sort_dm sel) [] [] []). discriminate.
+Qed.
+Print Assumptions create_vp_never_out_of_fuel.
+
 (* the selection CreateVP makes satisfies the definition's requirement logic, and only evaluated descriptors
    with at least one credential are in it *)
 Theorem holder_selection_satisfies_requirement : forall v p creds fmt sel,
